@@ -10,7 +10,41 @@ from .. import core, winlib
 from ..compare import close
 from ..families import window as W
 
-LEVEL_NOTE = "C01/windows: merge argument form (list / tuple / generator) must not matter; directed implementation stream"
+LEVEL_NOTE = ("C01/windows: merge argument form (list / tuple / generator) must not matter; directed implementation stream. "
+              "lifetime_stream replays, on the real classes, the merge-tree theorems of Props/C01_window_trees.v "
+              "(proofs Proofs/WindowTreeP.v; faithful V_code model of Models/Window.v, tied by the C13/C01 history "
+              "correspondence): window_lifetime_any_merge_tree, window_lifetime_any_two_merge_trees, "
+              "window_total_updates_any_merge_tree, window_lifetime_after_merge_then_updates (+ _ctr/_wcal/_mse/_ne): "
+              "lifetime value and total_updates of ANY merge tree (flat, nested, sequential, wrapped shards, updates after "
+              "the merge) = the non-windowed class on every update, no deviation; "
+              "window_merged_again_contributes_firstN, window_merge_reads_whole_pool, window_value_any_merge_tree, "
+              "window_leaf_contributes_lastN, window_sequential_merge_window (+ instances), "
+              "window_sequential_merge_small_target: the exact windowed value of nested / sequential merges (a merged "
+              "object merged again contributes only its first max_num_updates slots) -- the theorem behind the known "
+              "finding C01-window-merged-object-merged-again (witnesses: window_merge_nested_refuted, "
+              "window_update_after_merge_refuted); the sequential groupings of this stream are compared with that "
+              "closed form.  WindowedBinaryAUROC has no lifetime value.")
+
+
+def ring_slots(bs, N):
+    """Slot order of the buffer of a shard built by update() calls (Models.Window.wfilled): slot i holds the
+    latest update whose index is i modulo N."""
+    n = len(bs)
+    if n <= N:
+        return list(bs)
+    return [bs[max(k for k in range(n) if k % N == i)] for i in range(N)]
+
+
+def sequential_window(hist, N):
+    """Coq: window_merged_again_contributes_firstN / window_merge_reads_whole_pool / window_value_any_merge_tree.
+    A.merge([B1]); A.merge([B2]); ...: what compute() reads after the last merge (the whole pool), the target
+    keeping only the first N slots of its pool from one merge to the next."""
+    filled = ring_slots(hist[0], N)
+    read = filled
+    for bs in hist[1:]:
+        read = filled + ring_slots(bs, N)
+        filled = read[:N]
+    return read
 
 
 def lifetime_stream(ctx):
@@ -23,8 +57,8 @@ def lifetime_stream(ctx):
         if e.granularity == "sample":
             continue
         cfgs = [c for c in e.configs(ctx.rng, ctx.quick) if c.get("enable_lifetime")]
-        ok, seen = True, set()
-        for h in range(ctx.n(16, 160)):
+        ok, ok_seq, ok_tot, seen = True, True, True, set()
+        for h in range(ctx.n(40, 240)):
             cfg = cfgs[h % len(cfgs)]
             N = e.window(cfg)
             nsh = ctx.rng.choice([2, 3, 4])
@@ -55,6 +89,26 @@ def lifetime_stream(ctx):
             want = [ref_value(e, cfg, allb), ref_value(e, cfg, pooled)]
             post = [e.gen_batch(ctx.rng, cfg, 2) for _ in range(ctx.rng.choice([0, 1, 2]))]
             d = None
+            # window_total_updates_any_merge_tree
+            if int(tgt.total_updates) != len(allb) and ok_tot:
+                ok_tot = False
+                ctx.violation("failing-input", e.name,
+                              {"check": "total_updates after merge", "class": e.name, "cfg": cfg, "shards": hist,
+                               "grouping": "flat" if flat else "sequential", "observed": int(tgt.total_updates),
+                               "expected": len(allb), "broken": f"prop:total-updates-after-merge:{e.name}"})
+            # window_sequential_merge_window / window_value_any_merge_tree: the closed form of the windowed value
+            if not flat:
+                pred = sequential_window(hist, N)
+                s.count("sequential:" + ("window-lost" if len(pred) < len(pooled) else "nothing-lost"))
+                w3 = ref_value(e, cfg, pred)
+                if winlib.finite(w3) and isinstance(got, list) and len(got) == 2:
+                    d3 = close(w3, got[1], e.tol)
+                    if d3 and ok_seq:
+                        ok_seq = False
+                        ctx.violation("failing-input", e.name,
+                                      {"check": "windowed value of sequential merges vs the closed form of window_value_any_merge_tree",
+                                       "class": e.name, "cfg": cfg, "shards": hist, "observed": d3,
+                                       "broken": f"prop:sequential-merge-window-closed-form:{e.name}"})
             for idx, part in ((0, "lifetime"), (1, "pooled window")):
                 if not winlib.finite(want[idx]) or not isinstance(got, list) or len(got) != 2:
                     continue
@@ -83,6 +137,8 @@ def lifetime_stream(ctx):
                                "observed": d, "broken": f"prop:lifetime-after-merge:{e.name}"},
                               finding_id=fid)
         ctx.oblige(f"prop:lifetime-after-merge:{e.name}", ok, detail="" if ok else "see failing inputs")
+        ctx.oblige(f"prop:total-updates-after-merge:{e.name}", ok_tot, detail="" if ok_tot else "see failing inputs")
+        ctx.oblige(f"prop:sequential-merge-window-closed-form:{e.name}", ok_seq, detail="" if ok_seq else "see failing inputs")
 
 
 def run(ctx):
